@@ -94,7 +94,7 @@ func (s *tunnelServer) serve(tunnelMetadata metadata.MD) error {
 						StreamId: in.StreamId,
 						Frame: &tunnelpb.ServerToClient_CloseStream{
 							CloseStream: &tunnelpb.CloseStream{
-								Status: st.Proto(),
+								Status: statusProto(st),
 							},
 						},
 					})
@@ -670,7 +670,7 @@ func (st *tunnelServerStream) finishStream(err error) {
 			StreamId: st.streamID,
 			Frame: &tunnelpb.ServerToClient_CloseStream{
 				CloseStream: &tunnelpb.CloseStream{
-					Status:           stat.Proto(),
+					Status:           statusProto(stat),
 					ResponseTrailers: toProto(trailers),
 				},
 			},
